@@ -307,7 +307,10 @@ class Calls(DataModels):
             if name == 'insert':
                 pos, v, n0, el0 = to_int(args[0]), args[1], obj.n, obj.elem
                 if not I.pure and not I.ctx.provable(z3.And(pos >= 0, pos <= to_int(n0))):
-                    raise Unsupported('list.insert at an index not provably within [0, len]')
+                    # list.insert clamps: negative positions count from the end (not below 0),
+                    # positions beyond the end append
+                    nn = to_int(n0)
+                    pos = z3.If(pos < 0, z3.If(pos + nn < 0, 0, pos + nn), z3.If(pos > nn, nn, pos))
 
                 def elem(i, pos=pos, v=v, el0=el0):
                     ii = to_int(i)
@@ -489,7 +492,10 @@ class Calls(DataModels):
                 raise PyExc(cls, ln, 'from %s (may)' % c.qualname)
         # effects
         for path in c.modifies:
-            I.havoc_path(path, fr, {})
+            if path == '*rep':
+                self.havoc_reps(I, fr)
+                continue
+            I.havoc_path(path, fr, getattr(c, 'havoc_shapes', {}))
         is_gen = bool(c.each_yield) or c.yield_shape is not None
         prev_old = I.old_frame
         I.old_frame = old
@@ -572,6 +578,39 @@ class Calls(DataModels):
         finally:
             I.old_frame = prev_old
 
+    def rep_objects(self, fr):
+        """(path, object) of the invariant-carrying objects reachable from a frame"""
+        seen, objs = set(), []
+
+        def walk(v, path):
+            if id(v) in seen:
+                return
+            seen.add(id(v))
+            if isinstance(v, SObj):
+                if getattr(v, 'rep', ()):
+                    objs.append((path, v))
+                for k, x in v.attrs.items():
+                    walk(x, path + '.' + k)
+            elif isinstance(v, SRec):
+                for k, x in v.fields.items():
+                    walk(x, path + '.' + k)
+            elif isinstance(v, (list, tuple)):
+                for i, x in enumerate(v):
+                    walk(x, '%s[%d]' % (path, i))
+        for k, v in fr.env.items():
+            walk(v, k)
+        return objs
+
+    def havoc_reps(self, I, fr):
+        """the callee may rebuild any lazily built cache reachable from its arguments: their
+        representation fields get fresh values satisfying the object invariants"""
+        objs = [o for _p, o in self.rep_objects(fr)]
+        for o in objs:
+            for k, sh in getattr(o, 'rep_shapes', {}).items():
+                o.attrs[k] = sh.make(I.ctx, '%s.%s!r' % (o.cls, k))
+        for o in objs:
+            I.assume_invariant(o)
+
     def snapshot_frame(self, I, fr):
         memo = {}
         return Frame({k: self.snap(v, memo) for k, v in fr.env.items()}, None, func=fr.func)
@@ -598,6 +637,8 @@ class Calls(DataModels):
             n = {k: self.snap(x, memo) for k, x in v.items()}
         elif isinstance(v, SDict):
             n = SDict(v.has, v.get, v.name)
+        elif isinstance(v, SList):
+            n = SList(v.elem, v.n, v.name)        # append/insert update the object in place
         else:
             n = v
         memo[id(v)] = n
